@@ -72,6 +72,9 @@ pub fn c10() -> PropDef {
 #[derive(Clone, Debug)]
 pub enum Init {
     Packet(Vec<u8>),
+    /// parsed, then settled: decompressed in place through the question cursor, question memo filled by
+    /// `question_raw0()`
+    Settled(Vec<u8>),
     Empty,
     Query,
 }
@@ -79,6 +82,7 @@ pub enum Init {
 fn init_json(i: &Init) -> Value {
     match i {
         Init::Packet(p) => json!({"kind": "packet", "hex": hex(p)}),
+        Init::Settled(p) => json!({"kind": "settled", "hex": hex(p)}),
         Init::Empty => json!({"kind": "empty"}),
         Init::Query => json!({"kind": "query"}),
     }
@@ -88,6 +92,7 @@ fn init_from(v: &Value) -> Init {
     match v["kind"].as_str().unwrap_or("") {
         "empty" => Init::Empty,
         "query" => Init::Query,
+        "settled" => Init::Settled(unhex(v["hex"].as_str().unwrap_or(""))),
         _ => Init::Packet(unhex(v["hex"].as_str().unwrap_or(""))),
     }
 }
@@ -95,6 +100,12 @@ fn init_from(v: &Value) -> Init {
 pub fn init_snap(i: &Init) -> Option<Snap> {
     match i {
         Init::Packet(p) => crate::subj::parse(p).ok().map(|pp| snap(&pp)),
+        Init::Settled(p) => {
+            let mut pp = crate::subj::parse(p).ok()?;
+            pp.into_iter_question()?.uncompress().ok()?;
+            let _ = pp.question_raw0();
+            Some(snap(&pp))
+        }
         Init::Empty => {
             let mut pp = ParsedPacket::empty();
             pp.set_tid(0x1234);
@@ -221,6 +232,9 @@ pub fn initial_states_d(t: Tier, with_big: bool) -> Vec<(Init, usize)> {
     }
     v.push((Init::Empty, full));
     v.push((Init::Query, full));
+    // small packets as objects with a history (decompressed, question memo filled)
+    v.push((Init::Settled(encode(&msgs[1], Strategy::Max)), 2));
+    v.push((Init::Settled(encode(&msgs[6], Strategy::Max)), 2));
     if with_big {
         // larger than the insertion limit, as arrives over TCP: plain and "small but expands"
         let mut big = r(vec![a_rec(&ba, 60, [1, 2, 3, 4])], vec![], vec![opt[1].clone()]);
@@ -262,6 +276,10 @@ pub fn initial_states_d(t: Tier, with_big: bool) -> Vec<(Init, usize)> {
         near.an.push(Rec { owner: a.clone(), rtype: 99, class: 1, ttl: 0, rdata: Rdata::Opaque(vec![0x42; 65535 - used - 13 - 20]) });
         v.push((Init::Packet(encode(&near, Strategy::Plain)), 1));
         v.push((Init::Packet(encode(&near, Strategy::Max)), 1));
+        // the same just-below-65535 packet as an object with a history (decompressed, question memo filled), and
+        // two small packets likewise: one level of every operation from there
+        v.push((Init::Settled(encode(&near, Strategy::Plain)), 1));
+        v.push((Init::Settled(encode(&near, Strategy::Max)), 1));
         // 8192 exactly and 8180
         for total in [8192usize, 8180] {
             let mut m = r(vec![a_rec(&ba, 60, [1, 2, 3, 4])], vec![], vec![]);
